@@ -138,7 +138,10 @@ def run_net(case, res, log):
         except c13.Reject as e:
             verdict = ("reject", e.reason)
             used = "?"
-        q, serial = dns.xfr.make_query(b.zone, serial=(None if mode == "AXFR" else base_serial))
+        try:
+            q, serial = dns.xfr.make_query(b.zone, serial=(None if mode == "AXFR" else base_serial))
+        except ValueError as e:
+            raise Violation("C13:make-query", f"make_query(serial={base_serial}) raised ValueError: {e}")
         udp_mode = {"tcp": dns.query.UDPMode.NEVER, "udp_only": dns.query.UDPMode.ONLY, "udp_try_first": dns.query.UDPMode.TRY_FIRST}[transport]
         before = b.snap_nodes()
         exc = None
